@@ -1107,6 +1107,15 @@ def spec_accepts(cirq, cg, proto, op):
     return True
 
 
+def proto_canon(proto):
+    """A DeviceSpecification up to the order of its repeated fields (qubits of a set are written in iteration order)."""
+    return (sorted(proto.valid_qubits),
+            sorted((ts.name, ts.target_ordering, tuple(sorted(tuple(sorted(t.ids)) for t in ts.targets))) for ts in proto.valid_targets),
+            sorted((g.WhichOneof('gate'), g.gate_duration_picos) for g in proto.valid_gates),
+            sorted((q, sorted((k, v.WhichOneof('val'), str(getattr(v, v.WhichOneof('val')) if v.WhichOneof('val') else None)) for k, v in a.attributes.items()))
+                   for q, a in proto.qubit_attributes.items()))
+
+
 def devices_stream(ctx, cirq, cg, n):
     from cirq_google.devices import grid_device as gd
     from cirq_google.ops import PhysicalZTag, FSimViaModelTag, TwoPulseFSimTag
@@ -1141,7 +1150,7 @@ def devices_stream(ctx, cirq, cg, n):
         dev2 = cg.GridDevice.from_proto(proto)
         same_parts = (dev2.metadata.qubit_set == dev.metadata.qubit_set and dev2.metadata.qubit_pairs == dev.metadata.qubit_pairs
                       and dev2.metadata.gateset == dev.metadata.gateset and dict(dev2.qubit_attributes) == dict(dev.qubit_attributes)
-                      and dev2.to_proto() == proto)
+                      and proto_canon(dev2.to_proto()) == proto_canon(proto))
         durs_equal = dev2.metadata.gate_durations == dev.metadata.gate_durations
         ctx.count('device:roundtrip', rp, len(pairs) >= 1 and len(names) >= 2, sample=dict(rp, valid_gates=[g.WhichOneof('gate') for g in proto.valid_gates]))
         if not same_parts:
